@@ -269,7 +269,28 @@ func checkKeep(c *core.Ctx, fn *ssa.Function) {
 		return
 	}
 	n := 0
+	// effects of DeleteCandidate itself and of helpers only it calls; an effect inside a helper is
+	// gated where the helper is called
+	type eff struct {
+		s  *core.Site
+		at ssa.Instruction
+	}
+	var effs []eff
 	for _, s := range core.Sites(fn) {
+		effs = append(effs, eff{s, s.Instr})
+	}
+	for _, h := range c.Helpers(fn) {
+		for _, call := range core.Sites(fn) {
+			if call.Common.StaticCallee() != h {
+				continue
+			}
+			for _, s := range core.Sites(h) {
+				effs = append(effs, eff{s, call.Instr})
+			}
+		}
+	}
+	for _, e := range effs {
+		s := e.s
 		name := methodName(s)
 		effect := false
 		switch name {
@@ -281,7 +302,7 @@ func checkKeep(c *core.Ctx, fn *ssa.Function) {
 		}
 		n++
 		gated := false
-		for _, f := range c.FactsAt(s.Instr, 0) {
+		for _, f := range c.FactsAt(e.at, 0) {
 			if cf, ok := f.AsCall(); ok && cf.MethodName() == "IsValidator" && cf.Op == token.ILLEGAL && !f.Truth && strings.HasSuffix(cf.ArgPath(0), ".PubKey") {
 				gated = true
 			}
@@ -325,18 +346,18 @@ func checkRemove(c *core.Ctx, rec, del *ssa.Function) {
 	c.Check(tail, rule, "RecalculateStakesV2/tail-100", site.Pos(), "deletes the elements [100:] of the ordered candidate list", "the candidates removed are not exactly those ranked beyond the first 100 of the ordered list")
 	// DeleteCandidate: every AddFrozenFund has height+GetUnbondPeriod and the element's own Value, followed by setValue(0)
 	n := 0
-	for _, s := range core.Sites(del) {
+	for _, s := range c.GroupSites(del) {
 		if methodName(s) != "AddFrozenFund" {
 			continue
 		}
-		n++
+		n += callWeight(c, s.Fn)
 		ok1, d := isBlockPlusPeriod(s.Arg(0), "GetUnbondPeriod")
 		valObj := fieldObj(s.Arg(5), "Value")
 		ownObj := fieldObj(s.Arg(1), "Owner")
 		coinObj := fieldObj(s.Arg(4), "Coin")
 		same := valObj != nil && valObj == ownObj && valObj == coinObj
 		zeroed := false
-		for _, z := range core.Sites(del) {
+		for _, z := range core.Sites(s.Fn) {
 			if methodName(z) == "setValue" && core.Dominates(s.Instr, z.Instr) && z.Recv() != nil && core.Unwrap(z.Recv()) == valObj && isBigZero(z.Arg(0)) {
 				zeroed = true
 			}
